@@ -34,10 +34,15 @@ func (Driver) Info() core.Info {
 			"~9% of lists are pushed out of the domain: top-level null, argument of another type, wrong count). One round in 32 is a round of HISTORIES (history.go): a first call, then 1..3 calls of other " +
 			"functions of the family that are given a value already in play (an earlier argument, a member of one, an earlier result), then the first call again; the library gets the values themselves, the " +
 			"reference gets copies rebuilt through the constructors before the first call, so nothing a call does to a value can reach the expectation of a later call. " +
+			"One generated case in 6 that has a non-empty set among its arguments (top level or inside a list / tuple) takes that set and a proper subset of it as two snapshots of one growing or shrinking cty.ValueSet " +
+			"(SetValFromValueSet, Add / Remove, SetValFromValueSet; the older snapshot enumerated around the change) and uses both in the case, as two arguments and / or in a length() call made first; the reference gets cty.SetVal values of the same member lists (snapshots.go). " +
+			"Every call is made the way a caller holding a longer slice would make it (callerslice.go): the arguments are the first n elements of a backing array with two spare elements of the caller's own; one call in 8 is repeated through the same slice, " +
+			"and for variadic functions one in 4 is followed by the longer form buf[:n+1]; both are compared with the reference. " +
 			"Plus, in batch 0 of every run, a fixed corpus (rows transcribed by hand from the table tests, boundary cases, defect witnesses, 11 scripted histories; a row with an expectation also calibrates " +
 			"the reference) and eight completely enumerated sub-spaces (see exhaustive_subspaces). " +
 			"Oracle: Call fails exactly where the reference says 'outside the documented domain'; otherwise the result has exactly the reference's type and is model-equal to it (range: also the same exact numbers); never a Go panic; " +
-			"the complete internal state (VerifFingerprint) of every argument is the same after the call as before it (every call of a history and every second single call; in a history: of every value in play). " +
+			"the complete internal state (VerifFingerprint) of every argument is the same after the call as before it (every call of a history and every second single call; in a history: of every value in play); " +
+			"after every call each element of the caller's backing array, the spare ones included, is the very value the caller put there. " +
 			"distinct = hash of (function, %#v of the arguments); non-trivial = the reference is in-domain, so type and value were compared",
 		Assumptions: []string{
 			"trusted base of the reference: cty constructors and read accessors, convert.UnifyUnsafe / convert.Convert (the documented meaning of 'unified type' / 'converted to'; checked by C08/C09), mon.ModelEqual",
@@ -139,6 +144,12 @@ func (Driver) Run(c *core.Ctx) {
 		if pert != "" {
 			c.Count("input:" + pert)
 		}
+		if r.Chance(1, snapshotEvery) {
+			// set arguments taken as snapshots of one changing cty.ValueSet (snapshots.go)
+			if runSnapshotCase(c, i, r, fd, args) {
+				continue
+			}
+		}
 		checkCase(c, i, fd, args, nil)
 	}
 	if c.Batch == 0 {
@@ -164,15 +175,17 @@ func fmtArgs(a []cty.Value) string {
 }
 
 const (
-	facetErrWhereOK = "error where the reference succeeds"
-	facetOKWhereErr = "success where the reference says outside the documented domain"
-	facetType       = "result type differs from the reference"
-	facetValue      = "result value differs from the reference"
-	facetNotKnown   = "result of wholly known arguments is not wholly known, or is marked"
-	facetArgChanged = "a value in play is not the same after the call as before it (a later call given this value cannot match the reference)"
-	facetRefPanic   = "harness: reference implementation panicked"
-	facetFixture    = "harness: reference disagrees with a transcribed fixture"
-	facetFixtureLib = "library disagrees with a transcribed table-test fixture"
+	facetErrWhereOK   = "error where the reference succeeds"
+	facetOKWhereErr   = "success where the reference says outside the documented domain"
+	facetType         = "result type differs from the reference"
+	facetValue        = "result value differs from the reference"
+	facetNotKnown     = "result of wholly known arguments is not wholly known, or is marked"
+	facetArgChanged   = "a value in play is not the same after the call as before it (a later call given this value cannot match the reference)"
+	facetSliceWritten = "the call wrote into the caller's argument slice (an element of its backing array is not the value the caller put there)"
+	facetSecondCall   = "a second call through the same argument slice does not answer as the first call did"
+	facetRefPanic     = "harness: reference implementation panicked"
+	facetFixture      = "harness: reference disagrees with a transcribed fixture"
+	facetFixtureLib   = "library disagrees with a transcribed table-test fixture"
 )
 
 // fixture is an expectation transcribed from the table tests (or written by
@@ -229,19 +242,28 @@ func checkCall(c *core.Ctx, idx int64, fd *FnDef, libArgs, refArgs []cty.Value, 
 			before[i] = cty.VerifFingerprint(a)
 		}
 	}
+	// The library is handed the arguments the way a caller holding a longer slice would: as the first len(libArgs)
+	// elements of a backing array with room to spare, the elements past the end being the caller's own values.
+	cs := newCallerSlice(fd, libArgs, refArgs, idx)
 	var err error
-	o := core.Guard(func() { got, err = fd.Fn.Call(libArgs) })
+	o := core.Guard(func() { got, err = fd.Fn.Call(cs.args()) })
 	c.Eval(1)
 	class := classify(fd.Name, refArgs)
-	if hist != "" {
-		class = historyClass + class
-	}
+	class = classPrefix(hist) + class
 	c.Distinct(call, !ref.Err && !ref.Skip)
 
 	if o.Panicked {
 		c.Count("outcome:go-panic")
 		violate(site, "panic: "+core.PanicClass(o.PanicMsg), class, witness, o.PanicMsg+"\n"+o.Stack)
 		return
+	}
+	// the caller's slice: every element of the backing array, those past the end included, is the very value the caller put there
+	c.Count("oracle:caller-slice-untouched")
+	if d := cs.damage(); d != "" {
+		c.Count("outcome:caller-slice-written")
+		cl := classPrefix(hist) + fmt.Sprintf("%d arguments in a slice with room for %d", len(libArgs), cap(cs.buf))
+		violate(site, facetSliceWritten, cl, witness, d)
+		argChanged = true
 	}
 	if untouched {
 		c.Count("oracle:arguments-untouched")
@@ -250,9 +272,7 @@ func checkCall(c *core.Ctx, idx int64, fd *FnDef, libArgs, refArgs []cty.Value, 
 				// reported, and the result is still compared below (it may well be right: the damage shows in later calls)
 				c.Count("outcome:argument-changed")
 				cl := fmt.Sprintf("argument %d (%s) of %d", i, shape(refArgs[i]), len(refArgs))
-				if hist != "" {
-					cl = historyClass + cl
-				}
+				cl = classPrefix(hist) + cl
 				violate(site, facetArgChanged, cl, witness, fmt.Sprintf("argument %d before the call: %s\nafter the call: %s", i, before[i], after))
 				argChanged = true
 			}
@@ -309,6 +329,9 @@ func checkCall(c *core.Ctx, idx int64, fd *FnDef, libArgs, refArgs []cty.Value, 
 			c.CrossNote("C11", site+": function.PanicError: "+core.PanicClass(errText(err)), witness)
 		}
 		c.Count("outcome:agree-error")
+		if !reported {
+			reported = cs.followUps(c, fd, site, class, witness, hist, got, err, ref)
+		}
 		return
 	}
 	c.Count("oracle:value-expected")
@@ -342,17 +365,30 @@ func checkCall(c *core.Ctx, idx int64, fd *FnDef, libArgs, refArgs []cty.Value, 
 		violate(site, facetType, class, witness, fmt.Sprintf("library type %#v (value %#v); reference type %#v (value %#v)", got.Type(), got, ref.Val.Type(), ref.Val))
 		return
 	}
-	if ref.ExactNums && !sameNumbersExactly(got, ref.Val) || !(ref.ExactNums && sameNumbersBitwise(got, ref.Val)) && !sameValue(got, ref.Val, ref.OrderFree) {
+	if !sameAsRef(got, ref) {
 		c.Count("outcome:disagree")
 		violate(site, facetValue, class, witness, fmt.Sprintf("library %#v; reference %#v", got, ref.Val))
 		return
 	}
 	c.Count("outcome:agree-value")
 	c.Count("result-kind:" + kindOf(got.Type()))
+	if !reported {
+		if cs.followUps(c, fd, site, class, witness, hist, got, err, ref) {
+			return got, ref, false, true, argChanged, call
+		}
+	}
 	if c.WantSample() && (idx%7 == 3) {
 		c.Sample(map[string]any{"call": witness, "result": fmt.Sprintf("%#v", got), "reference": fmt.Sprintf("%#v", ref.Val)})
 	}
 	return got, ref, true, reported, argChanged, call
+}
+
+// sameAsRef: the value comparison of the oracle (the types were compared before).
+func sameAsRef(got cty.Value, ref Ref) bool {
+	if ref.ExactNums && !sameNumbersExactly(got, ref.Val) {
+		return false
+	}
+	return ref.ExactNums && sameNumbersBitwise(got, ref.Val) || sameValue(got, ref.Val, ref.OrderFree)
 }
 
 // sameNumbersExactly: two lists of numbers hold, position by position, the
